@@ -98,7 +98,7 @@ func opGroupAndMeta(r *rand.Rand, scenarios int) {
 					}
 				}
 				if r.Intn(12) == 0 {
-					part.Err = 9
+					part.Err = int16([]int{9, -1}[r.Intn(2)])
 				}
 				if r.Intn(6) == 0 { // a replica on a broker that is offline: the metadata lists only live brokers
 					part.Replicas = append(part.Replicas, 7+int32(r.Intn(2)))
@@ -127,7 +127,7 @@ func opGroupAndMeta(r *rand.Rand, scenarios int) {
 						if c.CommitErr[n] == nil {
 							c.CommitErr[n] = map[int32]int16{}
 						}
-						c.CommitErr[n][p] = int16([]int{9, 14, 28}[r.Intn(3)])
+						c.CommitErr[n][p] = int16([]int{9, 14, 28, -1}[r.Intn(4)])
 					}
 				}
 			}
@@ -139,7 +139,7 @@ func opGroupAndMeta(r *rand.Rand, scenarios int) {
 					if c.CommitErr[n] == nil {
 						c.CommitErr[n] = map[int32]int16{}
 					}
-					c.CommitErr[n][p] = int16([]int{9, 14, 28}[r.Intn(3)])
+					c.CommitErr[n][p] = int16([]int{9, 14, 28, -1}[r.Intn(4)])
 				}
 			}
 		}
@@ -189,7 +189,7 @@ func opGroupAndMeta(r *rand.Rand, scenarios int) {
 			c.Lock()
 			delete(c.GroupErr, group)
 			if r.Intn(8) == 0 || (ladder >= 0 && i%4 == 1) { // e.g. COORDINATOR_LOAD_IN_PROGRESS / GROUP_AUTHORIZATION_FAILED
-				c.GroupErr[group] = int16([]int{14, 30}[r.Intn(2)])
+				c.GroupErr[group] = int16([]int{14, 30, -1}[r.Intn(3)])
 			}
 			c.Unlock()
 			// ---- OffsetFetch
@@ -387,7 +387,7 @@ func opGroupAndMeta(r *rand.Rand, scenarios int) {
 			for _, n := range known { // a topic-level error now and then
 				c.Topics[n].Err = 0
 				if r.Intn(7) == 0 {
-					c.Topics[n].Err = int16([]int{5, 29}[r.Intn(2)])
+					c.Topics[n].Err = int16([]int{5, 29, -1}[r.Intn(3)])
 				}
 			}
 			c.Unlock()
